@@ -1252,8 +1252,9 @@ class MemoryCache:
         try:
             self.refs[cache_key] = result
         except TypeError:
-            # primitives like ints, strs, and dicts can't be weakrefed
-            pass
+            # primitives like ints, strs, and dicts can't be weakrefed. Make sure a reference
+            # to an earlier result of this call is not left behind and served later.
+            self.refs.pop(cache_key, None)
 
     @_synchronized
     def put(self, memento: Memento, result: object, has_result: bool):
